@@ -42,6 +42,9 @@ def build_and_run(wt, mdir, readme, tag):
             extra.append(fl)
             if fl.startswith("-fsanitize"):
                 break
+    extra += sorted(set(re.findall(r"-Wl,--wrap=\w+", readme)))
+    if "-ldl" in readme:
+        extra.append("-ldl")
     demo_src = [f for f in os.listdir(mdir) if f.startswith("demo") and f.endswith(".c")]
     exe = os.path.join(wt, "demo_%s" % tag)
     cmd = ["gcc", "-O1", "-g", "-w", "-I" + os.path.join(wt, "include")] + DEFS + extra + \
